@@ -154,7 +154,7 @@ def gen_client_cases(ctx, thorough):
     cases = []
     # all 256 exception codes: quick = one op per code (rotating), thorough = every op
     for code in range(256):
-        for op in (ops if thorough else [ops[(code + ctx.seed) % 8]]):
+        for op in (ops if thorough else [ops[(code + ctx.seed + k) % 8] for k in range(3)]):
             cases.append(f'req {op} {code} {1 if op not in ("wmc", "wmr") else 2}')
     for op in ops:
         for start in (1000, 1001, 1002, 1003, 1004):
@@ -343,6 +343,74 @@ def check_client(ctx, cases):
     return classes, n_calls, list(zip(cases, impl))
 
 
+# ------------------------------------------------------------------------------------------------ (c) TLS + authorization
+AUTH_NAMES = dict(OPS)
+
+
+def gen_authz_cases(ctx, thorough):
+    r = ctx.rng
+    cases = []
+    for server in ('ffi', 'rust'):
+        for op in OPS:
+            for decision in (('allow', 'deny', 'unset') if server == 'ffi' else ('allow', 'deny')):
+                for _ in range(2 if thorough else 1):
+                    unit = r.choice([1, 7, 200, 247])
+                    start = r.choice([0, 1, 5, 8])
+                    n = r.choice([1, 2, 3]) if op not in ('wc', 'wr') else r.choice([0, 1, 500])
+                    cases.append(f'{server} rust {op} {decision} {unit} {start} {n}')
+        for decision in ('allow', 'deny'):
+            cases.append(f'{server} ffi rh {decision} {r.choice([1, 9, 247])} {r.choice([0, 4])} {r.choice([1, 3])}')
+    return cases
+
+
+def spec_authz(c):
+    server, client, op, decision, unit, start, n = c.split()
+    unit, start, n = int(unit), int(start), int(n)
+    count = max(n, 1)
+    if op in ('wc', 'wr'):
+        what = f'{OPS[op]}:{unit}:{start}:operator'
+    else:
+        what = f'{OPS[op]}:{unit}:{start},{count}:operator'
+    auth = '- x0' if decision == 'unset' else f'{what} x1'
+    if decision != 'allow':
+        return f'client=EX:IllegalFunction auth={auth}'
+    if op in READS:
+        if start + count > 10:
+            res = 'EX:IllegalDataAddress'
+        elif op in ('rc', 'rd'):
+            res = 'OK:' + ','.join(f'{i}=0' for i in range(start, start + count))
+        else:
+            res = 'OK:' + ','.join(f'{i}={i}' for i in range(start, start + count))
+    else:
+        res = 'OK'
+    return f'client={res} auth={auth}'
+
+
+def check_authz(ctx, cases):
+    impl = ctx.harness('ffi_authz', cases, args=[vlib.REPO], timeout=900)
+    model = model_eval(ctx, ['Base.Show', 'Gen.FfiTables'], 'fun a : ffi_authorization => name_rust_authorization (authorization_from_ffi a)',
+                       ['FAU_Allow', 'FAU_Deny'], case_type='ffi_authorization', preamble='Local Open Scope string_scope.')
+    bad = 0
+    classes = {}
+    if model[0] is not None and model != ['Allow', 'Deny']:
+        bad += 1
+        ctx.violation('authorization-model-differs', f'model maps Allow, Deny to {model}', {'cases': [], 'model': model}, no_failing_input=True)
+    for c, i in zip(cases, impl):
+        server, client, op, decision = c.split()[:4]
+        k = f'{server}-server.{client}-client.{decision}'
+        classes[k] = classes.get(k, 0) + 1
+        want = spec_authz(c)
+        if i != want:
+            bad += 1
+            if bad <= 4:
+                side = 'C-ABI' if 'ffi' in (server, client) else 'Rust API'
+                ctx.violation(f'authorization-not-forwarded.{server}-server.{client}-client.{decision}',
+                              f'TLS+authz, {server} server, {client} client, {OPS[op]}, handler says {decision}: got `{i}`, expected `{want}`',
+                              {'cases': [['authz', c]], 'impl': i, 'spec': want}, no_failing_input=(side == 'Rust API'))
+    ctx.oblige('correspondence:c-abi-tls-authorization', bad == 0, f'{bad} disagreements on {len(cases)} cases')
+    return classes, list(zip(cases, impl))
+
+
 def run(ctx):
     ctx.translate(['FfiTables.v'])
     models_ok = ctx.build_models(['Base.Show', 'Model.Ffi', 'Spec.FfiSpec'])
@@ -356,26 +424,31 @@ def run(ctx):
     if ctx.replay and 'cases' in ctx.replay:
         server_cases = [c[1] for c in ctx.replay['cases'] if c[0] == 'server']
         client_cases = [c[1] for c in ctx.replay['cases'] if c[0] == 'client']
+        authz_cases = [c[1] for c in ctx.replay['cases'] if c[0] == 'authz']
     else:
         server_cases = gen_server_cases(ctx, thorough)
         client_cases = gen_client_cases(ctx, thorough)
+        authz_cases = gen_authz_cases(ctx, thorough)
     sc, cc, ncalls = {}, {}, 0
     s_samples, c_samples = [], []
     if server_cases:
         sc, s_samples = check_server(ctx, server_cases)
     if client_cases:
         cc, ncalls, c_samples = check_client(ctx, client_cases)
+    ac, a_samples = {}, []
+    if authz_cases:
+        ac, a_samples = check_authz(ctx, authz_cases)
     if not ctx.replay:
         need = ['exception-standard', 'exception-raw', 'timeout', 'bad-response', 'bad-frame', 'io', 'ok', 'no-connection', 'shutdown', 'queue-full', 'states']
         missing = [k for k in need if cc.get(k, 0) < 1] + [f'{k}.{x}' for k in KINDS for x in ('success', 'standard', 'raw', 'unset') if sc.get(f'{k}.{x}', 0) < 1]
         if missing:
             ctx.oblige('generator-reaches-expected-classes', False, str(missing))
     ctx.coverage.update({
-        'evaluations': len(server_cases) + ncalls,
-        'distinct_nontrivial': len(set(server_cases)) + len(set(client_cases)),
-        'rule': 'server half: one case = (write kind, callback set/unset, WriteResult success/exception/raw, address, values) run against a live C-ABI server and a live Rust API server; client half: one scenario = (scripted peer behaviour selected by the start address: exception code 0..255 / silent / malformed / bad MBAP / close / correct reply; or no connection / runtime shutdown / queue overfill / parameter validation) x one of the eight requests, run through the C ABI and through the Rust API; every case makes a real request, so all are non-trivial; distinct by case line',
-        'samples': [list(x) for x in s_samples[:3]] + [list(x) for x in c_samples[:2]] + [list(x) for x in c_samples[-6:-3]],
-        'input_classes': {'server': sc, 'client': cc},
+        'evaluations': len(server_cases) + ncalls + len(authz_cases),
+        'distinct_nontrivial': len(set(server_cases)) + len(set(client_cases)) + len(set(authz_cases)),
+        'rule': 'server half: one case = (write kind, callback set/unset, WriteResult success/exception/raw, address, values) run against a live C-ABI server and a live Rust API server; client half: one scenario = (scripted peer behaviour selected by the start address: exception code 0..255 / silent / malformed / bad MBAP / close / correct reply; or no connection / runtime shutdown / queue overfill / parameter validation) x one of the eight requests, run through the C ABI and through the Rust API; TLS+authz: (server api, client api, request, handler decision allow/deny/unset, unit, range) over a real TLS session with the role-bearing client certificate; every case makes a real request, so all are non-trivial; distinct by case line',
+        'samples': [list(x) for x in s_samples[:3]] + [list(x) for x in c_samples[:2]] + [list(x) for x in c_samples[-6:-3]] + [list(x) for x in a_samples[:2]],
+        'input_classes': {'server': sc, 'client': cc, 'tls_authz': ac},
         'exhaustive': False,
         'c_abi_client_calls': ncalls,
     })
